@@ -28,6 +28,7 @@ type c18Case struct {
 	Table  int      `json:"table"`
 	PutBuf bool     `json:"put_buf,omitempty"` // the "reuse the Put buffer" scenario instead
 	Via    string   `json:"via,omitempty"`     // ... through which writing call the buffer was passed
+	Async  bool     `json:"async,omitempty"`   // ... with asynchronous replication (R=2): the replication runs after the buffer was rewritten
 	// Pre: what happened to the store between the Put and the read that hands the value out
 	// ("fill": neighbours written until the entry's table is sealed and a new one is active;
 	// "compact": compaction of every partition; "churn" as in the follow-up events)
@@ -99,6 +100,9 @@ func c18Cases(tier string) []c18Case {
 					continue
 				}
 				cs = append(cs, c18Case{Path: p, Table: t, PutBuf: true, Via: via})
+				if t != 128 {
+					cs = append(cs, c18Case{Path: p, Table: t, PutBuf: true, Via: via, Async: true})
+				}
 			}
 		}
 	}
@@ -116,7 +120,11 @@ func contains(a []string, x string) bool {
 
 func c18Run(cs c18Case) (string, string) {
 	sched.ResetClock()
-	cl := simcluster.New(simcluster.Opts{N: 2, Replicas: 1, Partitions: 3, TableSize: cs.Table})
+	opts := simcluster.Opts{N: 2, Replicas: 1, Partitions: 3, TableSize: cs.Table}
+	if cs.Async {
+		opts.Replicas, opts.Async = 2, true
+	}
+	cl := simcluster.New(opts)
 	ctx := context.Background()
 	key := "snap"
 	view := cl.Live()[0]
@@ -201,9 +209,38 @@ func c18Run(cs c18Case) (string, string) {
 				return "setup", err.Error()
 			}
 		}
+		mode := ""
+		if cs.Async {
+			// the replication the Put started runs only now, after the buffer was rewritten
+			if cl.DeliverAsync() == 0 {
+				return "setup", "asynchronous replication: no replication call was queued"
+			}
+			mode = "/async"
+			// every stored copy of the key (primary and backup) holds what was passed to Put
+			copies := 0
+			for _, m := range cl.Live() {
+				for _, f := range m.DB.VerifDMap().VerifFragments() {
+					if f.Name != "dmap.d" {
+						continue
+					}
+					for _, e := range f.Entries {
+						if e.Key != key {
+							continue
+						}
+						copies++
+						if !strings.Contains(string(e.Value), "original-1") {
+							return "put-buffer-aliased/path=" + cs.Path + "/via=" + cs.Via + mode + "/" + f.Kind + "-copy", fmt.Sprintf("after %s returned the caller overwrote its buffer, then the asynchronous replication ran; the %s copy on %s holds %q", cs.Via, f.Kind, m.Name, e.Value)
+						}
+					}
+				}
+			}
+			if copies != 2 {
+				return "setup", fmt.Sprintf("asynchronous replication: %d stored copies instead of 2", copies)
+			}
+		}
 		got, err := readStored()
 		if err != nil || got != "original-1" {
-			return "put-buffer-aliased/path=" + cs.Path + "/via=" + cs.Via, fmt.Sprintf("after %s returned the caller overwrote its buffer; the stored value now reads %q (err %v)", cs.Via, got, err)
+			return "put-buffer-aliased/path=" + cs.Path + "/via=" + cs.Via + mode, fmt.Sprintf("after %s returned the caller overwrote its buffer; the stored value now reads %q (err %v)", cs.Via, got, err)
 		}
 		return "", ""
 	}
